@@ -44,7 +44,11 @@ var intervals = []int{1, 2, 3, 7}
 // was cleanly Released or never used), or to a fresh object if there is none.
 // Switching objects (S, B) parks the current object if it holds no un-released lease
 // and abandons it for good otherwise, so at most one object ever holds a lease.
-var alphabet = []string{"N", "R", "S1", "S2", "S3", "S7", "B"}
+// L = a late / duplicate Release on the most recently parked object (one that holds NO
+// un-released lease: cleanly Released, never used, or its lease used up exactly) while
+// the current owner keeps the key; it must change nothing. Without a parked object L is
+// a no-op and the history is pruned (it equals the history without that symbol).
+var alphabet = []string{"N", "R", "S1", "S2", "S3", "S7", "B", "L"}
 
 // crashAt is one injected fault at store call #Site: a crash (panic before / after
 // applying the call, the object is abandoned) or, with Fail, a store error (sentinel
@@ -74,6 +78,9 @@ type seqResult struct {
 	failThenCrash            bool // a crash fired after a store error had been returned earlier in the run
 	failThenRestart          bool // a Restart followed a store error
 	reuseAfterRelease        int  // numbers issued by an object that was parked after a Release and picked up again
+	lateReleases             int  // Release calls on a parked (lease-less) object
+	lateReleasesOwnerActive  int  // … while the current owner holds an un-released lease
+	redundant                bool // the history contains a no-op symbol: it equals a shorter history
 	issued                   int
 	events                   int // crash / restart / release between first and last issued number
 	trace                    string
@@ -135,12 +142,15 @@ func runSeq(cs seqCase) seqResult {
 	}
 	var parked []parkedObj
 	// leaveCurrent parks the current object (no un-released lease) or abandons it.
+	objExhausted := false // the last call on the object was a Next that issued mark-1: its lease is used up exactly
 	leaveCurrent := func() {
 		if objTouched {
 			slack += int64(interval)
-		} else {
+		}
+		if !objTouched || objExhausted {
 			parked = append(parked, parkedObj{obj, interval, objNexts})
 		}
+		objExhausted = false
 	}
 
 	var sinceLast []string // event classes since the last issued number
@@ -195,7 +205,7 @@ func runSeq(cs seqCase) seqResult {
 		case op == "N":
 			var v uint64
 			var err error
-			objTouched = true
+			objTouched, objExhausted = true, false
 			firedBefore := in.FiredCount()
 			cr, other := call(func() { v, err = obj.Next() })
 			if other != "" {
@@ -257,6 +267,9 @@ func runSeq(cs seqCase) seqResult {
 			if objPicked {
 				res.reuseAfterRelease++
 			}
+			if m, ok := readMark(inner); ok && m == v+1 && !objFailed {
+				objExhausted = true
+			}
 			if objFailed {
 				checkMark("Next(after-store-error-on-same-object)")
 			} else {
@@ -268,7 +281,7 @@ func runSeq(cs seqCase) seqResult {
 			if objNexts == 0 {
 				cls = "Release(object-never-called-Next)"
 			}
-			objTouched = true
+			objTouched, objExhausted = true, false
 			firedBefore := in.FiredCount()
 			cr, other := call(func() { err = obj.Release() })
 			if other != "" {
@@ -309,6 +322,51 @@ func runSeq(cs seqCase) seqResult {
 			}
 			obj, _ = kvstore.NewSequence(st, seqKey, uint64(interval))
 			objNexts, objTouched, objFailed, objPicked = 0, false, false, false
+		case op == "L":
+			n := len(parked)
+			if n == 0 {
+				res.redundant = true
+				tr.WriteString("L(-) ")
+				continue
+			}
+			pk := parked[n-1]
+			res.lateReleases++
+			if objTouched {
+				res.lateReleasesOwnerActive++
+			}
+			cls := "late-Release(on an object without lease, another object owns the key)"
+			var err error
+			cr, other := call(func() { err = pk.seq.Release() })
+			if other != "" {
+				return fail("Release/panic", fmt.Sprintf("step %d: late Release panicked: %s", i, other))
+			}
+			if cr != nil {
+				// the process of the parked object died inside its Release; the current owner is not affected
+				fmt.Fprintf(&tr, "L!%d%s ", cr.Site, ba(cr.After))
+				res.firedKinds = append(res.firedKinds, "LateRelease:"+cr.Kind+":"+ba(cr.After))
+				parked = parked[:n-1]
+				slack += int64(pk.interval)
+				sinceLast = append(sinceLast, "crash")
+				res.crashesFired++
+				checkMark(cls)
+				continue
+			}
+			if err != nil && errors.Is(err, faultkv.ErrInjected) {
+				f := in.Fired()
+				fmt.Fprintf(&tr, "L?%d ", f[len(f)-1].Site)
+				res.firedKinds = append(res.firedKinds, "LateRelease:"+f[len(f)-1].Kind+":fail")
+				res.failsFired++
+				slack += int64(pk.interval)
+				sinceLast = append(sinceLast, "store-error")
+				checkMark(cls)
+				continue
+			}
+			if err != nil {
+				return fail("Release/unexpected-error", fmt.Sprintf("step %d: late Release returned error %v on a healthy store", i, err))
+			}
+			tr.WriteString("L ")
+			sinceLast = append(sinceLast, "late-release")
+			checkMark(cls)
 		case op == "B":
 			n := len(parked)
 			leaveCurrent()
@@ -346,6 +404,7 @@ type stats struct {
 	runs, crashRuns, crashesFired, issued, nontrivialRuns, doubleCrashRuns int
 	failsFired, failRuns, failThenCrashRuns, failThenRestartRuns           int
 	reuseAfterRelease, reuseRuns                                           int
+	lateReleases, lateReleasesOwnerActive, pruned                          int
 	kinds                                                                  map[string]int
 	viols                                                                  []struct {
 		v  violation
@@ -363,6 +422,12 @@ func caseHash(cs seqCase) uint64 {
 // one more crash at every later store-call boundary (both sides).
 func explore(c *vf.Ctx, st *stats, cs seqCase, maxCrashes int) {
 	r := runSeq(cs)
+	if r.redundant && r.viol == nil {
+		st.pruned++
+		return
+	}
+	st.lateReleases += r.lateReleases
+	st.lateReleasesOwnerActive += r.lateReleasesOwnerActive
 	st.runs++
 	st.issued += r.issued
 	if len(cs.Crashes) > 0 {
@@ -453,6 +518,9 @@ func mergeStats(c *vf.Ctx, st *stats) {
 	c.Count("numbers_issued", st.issued)
 	c.Count("numbers_issued_by_object_reused_after_release", st.reuseAfterRelease)
 	c.Count("runs_object_reused_after_release", st.reuseRuns)
+	c.Count("late_release_calls_on_leaseless_object", st.lateReleases)
+	c.Count("late_release_calls_while_other_owner_holds_lease", st.lateReleasesOwnerActive)
+	c.Count("histories_pruned_noop_symbol", st.pruned)
 	c.Count("nontrivial_runs", st.nontrivialRuns)
 	for k, v := range st.kinds {
 		c.Count("crash@"+k, v)
@@ -553,7 +621,7 @@ func longCase(c *vf.Ctx, idx int) (seqCase, *rand.Rand) {
 		case r < 7:
 			ops[i] = "R"
 		default:
-			ops[i] = alphabet[2+rng.Intn(5)] // a restart or a hand-back
+			ops[i] = alphabet[2+rng.Intn(6)] // a restart, a hand-back or a late Release
 		}
 	}
 	return seqCase{Interval0: intervals[rng.Intn(4)], Ops: ops}, rng
@@ -645,7 +713,7 @@ func seqChild(c *vf.Ctx) {
 
 func sequentialPart(c *vf.Ctx) {
 	exhLen, dblLen, triLen := seqBounds(c)
-	c.Extra("exhaustive_bound", fmt.Sprintf("all histories over {Next, Release, Restart(1|2|3|7), Back-to-parked-object} of length <= %d for every initial interval in {1,2,3,7}, each fault-free and with a crash before / a crash after / a store error at every store call; every pair of faults for length <= %d, every triple for length <= %d", exhLen, dblLen, triLen))
+	c.Extra("exhaustive_bound", fmt.Sprintf("all histories over {Next, Release, Restart(1|2|3|7), Back-to-parked-object, Late-Release-on-parked-object} of length <= %d for every initial interval in {1,2,3,7}, each fault-free and with a crash before / a crash after / a store error at every store call; every pair of faults for length <= %d, every triple for length <= %d", exhLen, dblLen, triLen))
 	vf.Parallel(seqChildren, runtime.NumCPU(), func(k int) {
 		resumeJ, resumeI := -1, -1
 		for deaths := 0; ; {
@@ -994,6 +1062,7 @@ func run(c *vf.Ctx) {
 	c.Require("overlapping_calls", 1000)
 	c.Require("release_vs_next_overlaps", 1000)
 	c.Require("generations_on_reused_object", 10)
+	c.Require("late_release_calls_while_other_owner_holds_lease", 1000)
 	c.Require("runs_object_reused_after_release", 500)
 	c.Require("race_children", 1)
 	c.Assume("a crash of the owning process is modelled by a panic out of the store call followed by abandoning the Sequence object; mapdb applies Set atomically")
